@@ -305,6 +305,9 @@ func (e diskEngine) Gen(job *Job) *Case {
 			c.Faults = append(c.Faults, genFaults(r, c.Project, light)...) // up to 6 faults
 		}
 	}
+	if r.Chance(1, 6) && !strings.HasPrefix(c.Project.Kind, "special") && c.Project.Kind != "corpus" {
+		c.Prior = r.Range(1, 2)
+	}
 	// C07(c): an illegal byte over the first byte of a directive keyword of a light project
 	if light && e.prop == "C07" && c.Project.Kind == "light-graph" && r.Chance(1, 3) {
 		c.Faults = nil
@@ -404,13 +407,63 @@ func relProj(p string) string {
 	return strings.TrimPrefix(c, projDir+"/")
 }
 
+// damagedVersion: an older, broken version of the same project (same paths): for light
+// projects one file gets a line that is wrong in one of several ways (wrong context, unknown
+// directive, duplicate, missing include target); for others one block is damaged.
+func damagedVersion(p *Project, r *Rand) *Project {
+	q := p.Clone()
+	if strings.HasPrefix(p.Kind, "light") || r.Chance(1, 2) {
+		var idx []int
+		for i, f := range q.Files {
+			if !strings.HasSuffix(f.Path, "/") {
+				idx = append(idx, i)
+			}
+		}
+		if len(idx) == 0 {
+			return q
+		}
+		f := &q.Files[idx[r.Intn(len(idx))]]
+		nl := "\n"
+		if f.CRLF {
+			nl = "\r\n"
+		}
+		line := []string{"200 any", "BogusDirective x", "TAG @dupPrior" + nl + "TAG @dupPrior", "INCLUDE nosuch-prior.jst", "  Body", "404 @noSuchTypePrior", ")"}[r.Intn(7)]
+		s := string(f.Data)
+		if s != "" && !strings.HasSuffix(s, "\n") {
+			s += nl
+		}
+		f.Data = []byte(s + line + nl)
+		return q
+	}
+	if !damageOneBlock(q, r) {
+		corruptBeforeBuild(q, r)
+	}
+	return q
+}
+
 func (e diskEngine) Exec(c *Case, job *Job) *Result {
 	res := &Result{}
-	must(Materialise(c.Project.Files))
 	canonicalEnv()
+	if c.Prior > 0 {
+		// Prior history: damaged older versions of the same project are built first, at the same
+		// paths, in one pool session (same-task LIFO reuse, what sync.Pool does on one P). Whatever
+		// they leave behind - in a pool, in a package-level table keyed by path - is there for the
+		// build under observation, whose access log and outcome the oracles then judge as usual.
+		simrt.SetOSHook(nil)
+		simrt.PoolSimBegin(simrt.PoolConfig{Policy: simrt.PoolIsolating}, c.Seed)
+		pr := NewRand(c.Seed ^ 0x9e37)
+		for i := 0; i < c.Prior; i++ {
+			q := damagedVersion(c.Project, pr)
+			must(Materialise(q.Files))
+			buildCase(&Case{Project: q, Entry: c.Entry})
+		}
+		res.count("prior-builds-of-damaged-versions", c.Prior)
+	}
+	must(Materialise(c.Project.Files))
 	disk := NewDisk(c.Faults)
 	simrt.SetOSHook(disk)
 	disk.StartFaults()
+	taskSeed = c.Seed
 	simrt.ResetOps()
 	o := buildCase(c)
 	ops := simrt.Ops()
@@ -469,7 +522,7 @@ func (e diskEngine) Exec(c *Case, job *Job) *Result {
 			garbage = true
 		}
 	}
-	modelAsserted := (strings.HasPrefix(c.Project.Kind, "light") || c.Project.Kind == "generated-valid" || c.Project.Kind == "macro-graph" || strings.HasPrefix(c.Project.Kind, "special")) && !garbage
+	modelAsserted := (strings.HasPrefix(c.Project.Kind, "light") || c.Project.Kind == "generated-valid" || c.Project.Kind == "generated-late-defect" || c.Project.Kind == "macro-graph" || strings.HasPrefix(c.Project.Kind, "special")) && !garbage
 	for _, f := range c.Faults {
 		if f.Kind == "flip" || f.Kind == "setbyte" || f.Kind == "lost-zero" || f.Kind == "filler-tail" {
 			if !strings.HasPrefix(c.Project.Kind, "light") {
@@ -549,6 +602,9 @@ func (e diskEngine) Exec(c *Case, job *Job) *Result {
 			res.count("probe:same-path-served-in-two-versions", 1)
 			break
 		}
+	}
+	if c.Prior > 0 {
+		canonicalEnv()
 	}
 	if job.Sample || res.Verdict == "violation" {
 		var al []string
@@ -1010,6 +1066,11 @@ func (e diskEngine) Shrinks(c *Case) []*Case {
 	if c.Entry == "mem" {
 		d := cloneCase(c)
 		d.Entry = "path"
+		out = append(out, d)
+	}
+	if c.Prior > 0 {
+		d := cloneCase(c)
+		d.Prior = c.Prior - 1
 		out = append(out, d)
 	}
 	if c.Expect == nil {
